@@ -528,3 +528,25 @@ package processor
 //@     assume int(arg2) == ghost(0, "fetchMode")
 //@     assert [records-are-released-only-up-to-the-cut-off] implies(arg2 == recentFirst, ghost(0, "fetchClamped") == 1 && arg1 >= ghost(0, "fetchCutOff")) && implies(arg2 == recentLast, ghost(0, "fetchClamped") == 1 && arg1 <= ghost(0, "fetchCutOff"))
 //@ end
+
+// C05 (records reach the pipeline newest first / oldest first): fetchRRCs
+// releases every record at or beyond the cut-off, which is sound only if EVERY
+// unprocessed segment that reaches the cut-off was put into this batch.  The
+// walk over the list of unprocessed segments therefore ends only at the end of
+// the list (segments overlap in time: one that straddles the cut-off says
+// nothing about those behind it), and each segment it meets is tested against
+// the cut-off.  Ghost qsrTested: shouldProcessQSR was asked for the segment of
+// this iteration.
+//@ ghostdecl qsrTested int
+//@ func (*Searcher).getQSRSToProcess
+//@   props C05
+//@   assumecalleerequires
+//@   ghostinit ghost(0, "qsrTested") == 0
+//@   site callret s.shouldProcessQSR #1:
+//@     ghostset ghost(0, "qsrTested") = 1
+//@   site call s.willProcessQSRCompletely #1:
+//@     assert [each-segment-met-is-tested-against-the-cut-off] ghost(0, "qsrTested") == 1 && arg1 == qsr
+//@     ghostset ghost(0, "qsrTested") = 0
+//@   site return #5:
+//@     assert [the-walk-ends-only-at-the-end-of-the-list] e == nil
+//@ end
